@@ -6,5 +6,5 @@ LEVEL = "proof"
 
 
 def run(chk, replay=None):
-    proccheck.run(chk, "PropC03", {'lifecycle': 5, 'overlap': 4, 'inactivity': 2, 'mixed': 2, 'multi': 1}, 260, 4000, [301, 302, 303, 304, 305, 306], replay=replay)
+    proccheck.run(chk, "PropC03", {'lifecycle': 5, 'overlap': 4, 'inactivity': 2, 'silence': 3, 'staletick': 1, 'mixed': 2, 'multi': 1}, 260, 4000, [301, 302, 303, 304, 305, 306], replay=replay)
     statuscheck.run_stage(chk)
